@@ -106,6 +106,8 @@ def rule_F(run: Run, prog: Program) -> int:
     run.rule("E10.F2", "in a handler of LinearDependenceError as e, every use of self/self._plane for meet/contains is re-indexed by "
                        "~e.dependent_values, and re-indexing the parameter is guarded by a test that separates collections from single "
                        "objects (a guard already implied by an enclosing identical isinstance is no guard)")
+    run.rule("E10.F6", "a filter mask assembled on several paths of one try statement (no exception / each handler that goes on to the shared result) is "
+                       "restricted to the other operand on all of them or on none")
     run.rule("E10.F3", "results gathered from several facets (self.edges / self.faces .intersect) pass through distinct()")
     run.rule("E10.F4", "a meet(..., _check_dependence=False) whose result is returned as points carries ~result.is_zero() in its filter")
     te = TypeEval(prog)
@@ -160,6 +162,68 @@ def rule_F(run: Run, prog: Program) -> int:
         for st0, _c0 in walk_ctx(fn.node.body):
             if isinstance(st0, ast.AugAssign) and isinstance(st0.target, ast.Name) and isinstance(st0.op, ast.BitAnd):
                 accumulated.setdefault(st0.target.id, [a.value for a, _c in assigns.get(st0.target.id, [])]).append(st0.value)
+        # F6: a mask that is built on several paths of one try statement (body + else / each handler) must be filtered by the other operand on
+        # ALL of them as soon as it is on one: the paths are siblings that produce the same result variable
+        from_other = {other}
+        changed = True
+        while changed:
+            changed = False
+            for nm, lst in assigns.items():
+                if nm not in from_other and nm not in from_self and any(any(isinstance(x, ast.Name) and x.id in from_other for x in ast.walk(a.value)) for a, _c in lst):
+                    from_other.add(nm)
+                    changed = True
+        steps_by_mask: dict[str, list[tuple[ast.AST, Ctx, ast.stmt]]] = {}
+        for st0, c0 in walk_ctx(fn.node.body):
+            if isinstance(st0, ast.Assign) and len(st0.targets) == 1 and isinstance(st0.targets[0], ast.Name):
+                steps_by_mask.setdefault(st0.targets[0].id, []).append((st0.value, c0, st0))
+            elif isinstance(st0, ast.AugAssign) and isinstance(st0.target, ast.Name) and isinstance(st0.op, ast.BitAnd):
+                steps_by_mask.setdefault(st0.target.id, []).append((st0.value, c0, st0))
+        used_as_mask = {sl.id for st1, _c in walk_ctx(fn.node.body) for x in ast.walk(st1) if isinstance(x, ast.Subscript) and isinstance(x.value, ast.Name)
+                        and x.value.id in cand and isinstance((sl := x.slice), ast.Name)}
+        for mname in sorted(used_as_mask & set(steps_by_mask)):
+            steps = steps_by_mask[mname]
+            trys = {id(c[1]): c[1] for _v, ctx_, _s in steps for c in ctx_ if c[0] in ("try", "tryelse")} | {
+                id(t): t for _v, ctx_, _s in steps for c in ctx_ if c[0] == "except" for t in [x for x in ast.walk(fn.node) if isinstance(x, ast.Try) and c[1] in x.handlers]}
+            for t in trys.values():
+                def arm_of(ctx_):
+                    for c in ctx_:
+                        if c[0] in ("try", "tryelse") and c[1] is t:
+                            return "normal"
+                        if c[0] == "except" and c[1] in t.handlers:
+                            return ("handler", t.handlers.index(c[1]))
+                    return "all"
+                arms = ["normal"] + [("handler", i) for i in range(len(t.handlers))]
+                per_arm = {a: [v for v, ctx_, _s in steps if arm_of(ctx_) in (a, "all")] for a in arms}
+                # a handler that leaves the function (return / raise) without using the mask is not a path to the shared result
+                live = []
+                for a in arms:
+                    if a == "normal":
+                        live.append(a)
+                        continue
+                    h = t.handlers[a[1]]
+                    leaves = bool(h.body) and isinstance(h.body[-1], (ast.Return, ast.Raise))
+                    if not leaves and any(arm_of(ctx_) == a for _v, ctx_, _s in steps):
+                        live.append(a)
+                if len(live) < 2:
+                    continue
+
+                def filters_other(vals):
+                    return any(isinstance(x, ast.Call) and isinstance(x.func, ast.Attribute) and x.func.attr == "contains" and any(
+                        isinstance(y, ast.Name) and y.id in from_other for y in ast.walk(x.func.value)) and not mentions_self(x.func.value)
+                               for v in vals for x in ast.walk(v))
+
+                have = {a: filters_other(per_arm[a]) for a in live}
+                n += 1
+                loc6 = f"{rel}:{t.lineno}"
+                if any(have.values()) and not all(have.values()):
+                    missing = [("the handler of " + ast.unparse(t.handlers[a[1]].type)[:40] if a != "normal" else "the path without an exception") for a in live if not have[a]]
+                    run.add("E10.F6", fn.short, f"mask `{mname}` across the paths of one try statement", VIOLATION,
+                            f"the mask `{mname}` is restricted to the other operand (`<{', '.join(sorted(from_other))}>.contains(...)`) on one path of the try "
+                            f"statement but not on {', '.join(missing)}: on that path the bounded operand is replaced by its supporting line and points "
+                            f"outside it are returned", loc6)
+                else:
+                    run.add("E10.F6", fn.short, f"mask `{mname}` across the paths of one try statement", PROVEN,
+                            "all paths of the try statement filter the result alike", loc6)
         seen_masks = set()
         for var, mexpr, ctx, st in masks:
             key = id(mexpr)
